@@ -1,6 +1,18 @@
 """C18 - pre-/post-processors run in hierarchy order and affect only what they should.
 
-Tie: K (hand-written model lean/PyrollModel/Proc.lean, theorems lean/PyrollProps/C18.lean).
+Tie: T + K (hand-written model lean/PyrollModel/Proc.lean, theorems lean/PyrollProps/C18.lean).
+
+T: driver/translate/c18_procs.py re-reads, on every run, the class attributes `pre_processors` / `post_processors`,
+`Unit.__init_subclass__`, `_yield_pre_processors` / `_yield_post_processors`, `init_solve` (with its re-use branch for an existing out profile),
+`solve`, `_solve_subunits` (pyroll/core/unit/unit.py), the library's own registration (pyroll/core/roll_pass/base.py) and the inventory of
+overrides in pyroll/core, writes them as programs over a small instruction set (lean/PyrollModel/Gen/C18.lean,
+interpreter lean/PyrollModel/ProcProg.lean); section 10 of lean/PyrollProps/C18.lean proves that running those programs
+equals the hand-written model (`*_program_refines_*`, `library_as_modelled`).  A source change either leaves the
+proofs intact, breaks the build, or leaves the translated subset (`ctx.tie_breaks`): broken tie -> extended search for a
+failing input.  `check_generated` compares the statically read class table / overrides / registrations with the
+running classes.
+
+K (below):
 
 One case = one history over a REAL class hierarchy: classes are created with type() below the library classes
 Unit / PassSequence / DiskElementUnit / Transport / Rotator (single and multiple inheritance, non-unit mix-ins,
@@ -53,7 +65,14 @@ RULE = ("random histories over real class hierarchies built with type() below Un
         "pass) changed included; 30% of the histories contain real two-roll passes (groove, roll, gap, real workpiece) "
         "solved alone and as members of sequences; factories always/never/unit-state-dependent, processors "
         "in-place/copying/identity. A case is non-trivial when some solve consulted >= 2 factories; distinct by the op lines.")
+TRUSTED_EXTRA = ["AST pattern matcher for the processor code (driver/translate/c18_procs.py) and the meaning given to its "
+                 "instructions (lean/PyrollModel/ProcProg.lean: attribute lookup along the MRO, `yield from`, what a `None` "
+                 "processor does to `p.solve`, public copy = new object with the same marks)"]
 ASSUMPTIONS = [
+    "the statements of Unit's class body, __init_subclass__, _yield_pre/_post_processors, init_solve, solve and "
+    "_solve_subunits are tied to the model by the programs translated from the source (refinement theorems, all inputs); "
+    "the inventory of overrides, the init_solve overrides of BaseRollPass / DiskElementUnit, the library's registration and "
+    "the class table are pinned (library_as_modelled)",
     "CPython class semantics (C3 MRO - the real __mro__ is an input of the model -, attribute lookup along the MRO, "
     "the implicit __init_subclass__ call of type.__new__, list.append/remove/clear) are modelled, not verified",
     "the number of iterations of a unit's own solution loop is numeric and therefore an input of the model",
@@ -1335,6 +1354,56 @@ def check_library(ctx):
                        "how": "list(cls._yield_pre_processors(object.__new__(cls))) for the classes of pyroll.core"})
 
 
+def check_generated(ctx):
+    """(T vs the running code) what driver/translate/c18_procs.py read statically - the class table with its C3 MRO
+    tails, which unit classes define one of the watched names, the library's own registrations - compared with the
+    REAL classes; a difference is a translator defect or a class built in a way `ast` does not show (decorator,
+    metaclass, monkey patch): reported as a disagreement (tie broken), never as a violation"""
+    from driver import core
+    from driver.translate import c18_procs
+    import pyroll.core as pr
+    try:
+        inv = c18_procs.inventory(core.REPO, LIBNAMES)
+    except c18_procs.Gap as e:
+        ctx.tie_breaks.append(f"c18_procs: {e}")
+        return
+    diffs = []
+    lib = [getattr(pr, n, None) for n in LIBNAMES]
+    for i, (name, tail, hook, _rel, _ln) in enumerate(inv["table"]):
+        cls = lib[i]
+        if cls is None:
+            diffs.append(f"{name}: no such class in pyroll.core")
+            continue
+        real_tail = sorted((j for j, k in enumerate(lib) if k is not None and k in cls.__mro__[1:]),
+                           key=lambda j: cls.__mro__.index(lib[j]))
+        if real_tail != list(tail):
+            diffs.append(f"{name}: MRO tail read from the class statements {list(tail)}, real {real_tail}")
+        if ("__init_subclass__" in cls.__dict__) != hook:
+            diffs.append(f"{name}: defines __init_subclass__: read {hook}, real {not hook}")
+    seen, todo = [pr.Unit], [pr.Unit]
+    while todo:
+        for sub in todo.pop().__subclasses__():
+            if sub not in seen and (sub.__module__ or "").startswith("pyroll.core"):
+                seen.append(sub)
+                todo.append(sub)
+    # (the two list attributes are in every subclass's __dict__ at run time - `__init_subclass__` puts them there -, a
+    # class statement binding them would be in the read list only: compared through the registrations below)
+    lists = set(c18_procs.KINDS)
+    real_over = sorted((c.__qualname__, n) for c in seen if c is not pr.Unit for n in c18_procs.WATCH
+                       if n in c.__dict__ and n not in lists)
+    if real_over != sorted(o for o in inv["overrides"] if o[1] not in lists):
+        diffs.append(f"overrides read {sorted(inv['overrides'])}, real {real_over}")
+    real_regs = sorted((c.__qualname__, kind, getattr(f, "__name__", "?")) for c in seen
+                       for attr, kind in c18_procs.KINDS.items() for f in (c.__dict__.get(attr) or ()))
+    read_regs = sorted((c, k, a) for (c, k, m, a, _rel, _ln) in inv["regs"] if m == "append")
+    if real_regs != read_regs:
+        diffs.append(f"library registrations read {read_regs}, real {real_regs}")
+    ctx.count("generated-table-checked")
+    if diffs:
+        ctx.disagreement("the tables generated from the source differ from the running classes: " + diffs[0],
+                         {"check": "generated", "differences": diffs})
+
+
 # -------------------------------------------------------------------------------------------
 # run
 # -------------------------------------------------------------------------------------------
@@ -1417,9 +1486,20 @@ def _compare(ctx, cases, state):
         ctx.disagreement("model output length mismatch", {"expected": pos, "got": len(out)})
 
 
+def translate(ctx):
+    """(T) regenerate lean/PyrollModel/Gen/C18.lean from the working tree; statements outside the subset -> tie_breaks"""
+    from driver import core
+    from driver.translate import c18_procs
+    try:
+        c18_procs.emit(ctx, core.REPO, core.LEAN_DIR, LIBNAMES)
+    except c18_procs.Gap as e:         # a class / file is missing altogether
+        ctx.tie_breaks.append(f"c18_procs: {e}")
+
+
 def run(ctx):
     import gc
     check_library(ctx)
+    check_generated(ctx)
     n_cases = ctx.budget(1500, 17000)      # (thorough: ~11 min; 20000 took 12.8 min with the real roll passes of round 2)
     use_model = getattr(ctx, "model_available", True)
     reported = set()
